@@ -163,6 +163,12 @@ func c07RegistryCase(c *Ctx) *Result {
 	n := pick(r, 1, 2, 3, 5, 17, 20, 40)
 	shared := r.Intn(3) == 0
 	mandatory := r.Intn(2) == 0
+	// every 4th case starts from a source address whose cache entry is full:
+	// 16 different users have authenticated from it
+	fullCache := c.Idx%4 == 1
+	if fullCache {
+		n, shared, mandatory = pick(r, 17, 20, 40), false, false
+	}
 	users := genRegUsers(r, n, shared)
 	// names colliding on the hint for a fixed nonce prefix
 	prefix := refcodec.RandBytes(16)
@@ -191,6 +197,32 @@ func c07RegistryCase(c *Ctx) *Result {
 	var firstBad *witness
 	var sig string
 	reloads := 0
+	if fullCache {
+		src := serveruser.SourceFromAddr(srcs[0])
+		for k := 0; k < 16 && k < len(users); k++ {
+			pkt := craftMeta(users[k].Hashed, users[k].Name, time.Now().Unix(), nil)
+			if _, _, authn, err := reg.Discover(pkt, src, true); err == nil {
+				authn.Record()
+				res.Obs["recorded"]++
+			}
+		}
+		res.Obs["full_source_caches"]++
+		// from that address: a credential nobody registered, and a registered
+		// user who is not among the 16, without a usable hint
+		for k, u := range []regUser{foreign, users[len(users)-1], foreign, users[16%len(users)]} {
+			hint := pick(r, "", "nobody", users[0].Name)
+			unix := time.Now().Unix()
+			pkt := craftMeta(u.Hashed, hint, unix, nil)
+			block, _, _, err := reg.Discover(pkt, src, k%2 == 0)
+			accept, allowed := modelDecide(current, pkt, unix, mandatory)
+			res.Obs["discoveries"]++
+			if (err == nil) != accept || (err == nil && !allowed[block.BlockContext().UserName]) {
+				sig = "full-cache|decision-differs"
+				firstBad = &witness{-1, fmt.Sprintf("source with 16 cached users: credential of %q with hint %q: accepted=%v, expected accepted=%v", u.Name, hint, err == nil, accept)}
+				break
+			}
+		}
+	}
 	for i := 0; i < nops && firstBad == nil; i++ {
 		// occasional time steps (cache life is 10 minutes) and reloads
 		switch r.Intn(40) {
